@@ -159,6 +159,7 @@ def handle (args : List String) : Verdict :=
   | "smooth" :: r => handleSmooth r
   | "fitrepro" :: r => handleFit r
   | "resample" :: r => Driver.C12R.handle r
+  | "resfit" :: r => Driver.C12R.handleFit r
   | _ => bad "unknown op"
 
 end Driver.C12
